@@ -513,3 +513,103 @@ Proof.
   - match goal with |- mk_cmd ?n ?p ?t = [] \/ _ => apply (G n p t 6 27 eq_refl); [lia|lia|cbn; tauto] end.
   - match goal with |- mk_cmd ?n ?p ?t = [] \/ _ => apply (G n p t 6 192 eq_refl); [lia|lia|cbn; tauto] end.
 Qed.
+
+(* ------------------------------------------------------------------ the clean-up chain, event by event *)
+
+(* an Ok item comes off a connection that is still the current one *)
+Lemma retry_next_ok_cur cfg : forall fuel r w i v r' w',
+  retry_next fuel cfg r w = (Some (IOk i v), r', w') -> exists id, w_cur w' = Some id.
+Proof.
+  induction fuel as [|f IH]; intros r w i v r' w' H; [discriminate|]. cbn [retry_next] in H. destruct (r_ph r) eqn:P.
+  - destruct (r_left r) as [|lft]; [discriminate|].
+    destruct (w_cur (at_time w _)) as [id|]; [eapply IH; exact H|].
+    destruct (connect cfg _ _) as [id w1|what w1]; [eapply IH; exact H|discriminate].
+  - destruct (w_cur w) as [id|] eqn:C; [|discriminate].
+    pose proof (seq_next_cur (r_seq r) id ph (w_now w + r_timeout r) w) as K.
+    destruct (seq_next (r_seq r) id ph (w_now w + r_timeout r) w) as [[i0 v0|e] ph' w1|w1|w1]; try discriminate.
+    + injection H as _ _ _ <-. exists id. rewrite K. exact C.
+    + eapply IH; exact H.
+  - eapply IH; exact H.
+  - discriminate.
+Qed.
+
+(* so an exchange whose ONLY way to succeed is its handler's verdict on a reply hands back a live connection *)
+Lemma consume_ok_cur {A B} cfg (h : A -> N -> value -> option (cres B) * A) fin :
+  (forall a x, fin a <> ROk x) ->
+  forall fuel r w acc x w', consume fuel cfg r w acc h fin = (ROk x, w') -> exists id, w_cur w' = Some id.
+Proof.
+  intros Hf. induction fuel as [|f IH]; intros r w acc x w' H.
+  { cbn [consume] in H. injection H as H _. exfalso. exact (Hf _ _ H). }
+  rewrite consume_S in H.
+  destruct (retry_next RFUEL cfg r w) as [[[[i v|e]|] r1] w1] eqn:E.
+  - destruct (h acc i v) as [[res|] acc'].
+    + injection H as _ <-. eapply retry_next_ok_cur. exact E.
+    + eapply IH. exact H.
+  - eapply IH. exact H.
+  - injection H as H _. exfalso. exact (Hf _ _ H).
+Qed.
+
+Local Strategy 1000 [consume retry_next RFUEL LOOPFUEL].
+
+Lemma get_pending_ok_cur cfg w l w1 : get_pending cfg w = (ROk l, w1) -> exists id, w_cur w1 = Some id.
+Proof.
+  unfold get_pending. intros H.
+  match type of H with context [consume ?f cfg ?r w ?a0 ?h ?fin] =>
+    assert (Hf : forall (u : unit) (x : list N), fin u <> ROk x) by (intros u x E; discriminate E);
+    pose proof (consume_ok_cur cfg h fin Hf f r w a0) as K; destruct (consume f cfg r w a0 h fin) as [[l0|e] w0] end.
+  - injection H as _ <-. eapply K. reflexivity.
+  - destruct e; discriminate.
+Qed.
+
+Lemma cancel_by_receipt_ok_cur cfg rn w u w1 : cancel_by_receipt cfg rn w = (ROk u, w1) -> exists id, w_cur w1 = Some id.
+Proof. unfold cancel_by_receipt. intros H. eapply (consume_ok_cur cfg); [|exact H]. intros a x E. discriminate E. Qed.
+
+Lemma first_new_of_grows w w' e : grows (e :: w_log w) w' -> first_new_event w w' e.
+Proof. intros [ws E]. exists ws. exact E. Qed.
+
+(* nothing dangling: the end-of-day request is the very next event after the query's exchange, on the same connection *)
+Theorem idle_chain_then_requests_end_of_day cfg w w1 : get_pending cfg w = (ROk [], w1) ->
+  exists id, w_cur w1 = Some id /\
+    first_new_event w1 (snd (eod_exchange cfg w1)) (EWrite id (w_now w1) (end_of_day_req cfg)).
+Proof.
+  intros H. destruct (get_pending_ok_cur cfg w [] w1 H) as [id C]. exists id. split; [exact C|].
+  apply first_new_of_grows. unfold eod_exchange.
+  pose proof (call_writes_request_first cfg
+                (h_eod (variant_ix "zvt::sequences::EndOfDayResponse" "CompletionData") (variant_ix "zvt::sequences::EndOfDayResponse" "Abort"))
+                (fun _ => RErr EIncomplete) (seq_of "zvt::sequences::EndOfDay" (end_of_day_req cfg)) TIMEOUT id 399 w1 tt C) as K.
+  change (S 399) with LOOPFUEL in K. rewrite q_cmd_seq_of in K. exact K.
+Qed.
+
+(* a dangling pre-authorisation: its reversal is the very next event, and once the terminal completed that, the end-of-day request *)
+Theorem idle_chain_reverses_the_reported_one cfg w p w1 : get_pending cfg w = (ROk [p], w1) ->
+  exists id, w_cur w1 = Some id /\
+    first_new_event w1 (snd (cancel_by_receipt cfg p w1)) (EWrite id (w_now w1) (reversal_req cfg p)).
+Proof.
+  intros H. destruct (get_pending_ok_cur cfg w [p] w1 H) as [id C]. exists id. split; [exact C|].
+  apply first_new_of_grows. unfold cancel_by_receipt.
+  pose proof (call_writes_request_first cfg
+                (h_until_completion (variant_ix "zvt::sequences::PartialReversalResponse" "CompletionData") (variant_ix "zvt::sequences::PartialReversalResponse" "PartialReversalAbort"))
+                (fun _ => RErr EIncomplete) (seq_of "zvt::sequences::PreAuthReversal" (reversal_req cfg p)) TIMEOUT id 399 w1 tt C) as K.
+  change (S 399) with LOOPFUEL in K. rewrite q_cmd_seq_of in K. exact K.
+Qed.
+Theorem idle_chain_after_reversal_requests_end_of_day cfg p w1 u w2 : cancel_by_receipt cfg p w1 = (ROk u, w2) ->
+  exists id, w_cur w2 = Some id /\
+    first_new_event w2 (snd (eod_exchange cfg w2)) (EWrite id (w_now w2) (end_of_day_req cfg)).
+Proof.
+  intros H. destruct (cancel_by_receipt_ok_cur cfg p w1 u w2 H) as [id C]. exists id. split; [exact C|].
+  apply first_new_of_grows. unfold eod_exchange.
+  pose proof (call_writes_request_first cfg
+                (h_eod (variant_ix "zvt::sequences::EndOfDayResponse" "CompletionData") (variant_ix "zvt::sequences::EndOfDayResponse" "Abort"))
+                (fun _ => RErr EIncomplete) (seq_of "zvt::sequences::EndOfDay" (end_of_day_req cfg)) TIMEOUT id 399 w2 tt C) as K.
+  change (S 399) with LOOPFUEL in K. rewrite q_cmd_seq_of in K. exact K.
+Qed.
+
+(* and a cancel that the terminal completed hands the chain a live connection: the query goes out at once on it *)
+Theorem completed_cancel_then_queries cfg st w rn w1 u : cancel_by_receipt cfg rn w = (ROk u, w1) ->
+  exists id, w_cur w1 = Some id /\ exists req : list N, req <> nil /\
+    first_new_event w1 (snd (end_of_day cfg st w1)) (EWrite id (w_now w1) req) /\
+    forall r, dec_cmd FUEL (cmd_of "zvt::packets::PartialReversal") (req ++ r) = Ok (pending_query_value, r).
+Proof.
+  intros H. destruct (cancel_by_receipt_ok_cur cfg rn w u w1 H) as [id C]. exists id. split; [exact C|].
+  exact (end_of_day_first_asks_for_pending cfg st w1 id C).
+Qed.
